@@ -28,3 +28,8 @@ for H in obs[:int(os.environ.get('N', '3'))]:
         if r['inconclusive']: print('  INCONCLUSIVE', r['inconclusive'])
         for v in r['violations'][:4]: print('  VIOL', json.dumps(v)[:600])
         for v in r['mismatches'][:4]: print('  MISMATCH', json.dumps(v)[:900])
+
+from symx import core
+if core._DEBUG_FORKS:
+    for k, v in sorted(core._DEBUG_FORKS.items(), key=lambda kv: -kv[1])[:25]:
+        print('%6d  %s' % (v, k))
